@@ -41,6 +41,14 @@ def _cancel_hook(sites: List[Dict[str, Any]]):
     def arith(I, node, opname, a, b):
         if opname not in ("add", "sub"):
             return
+        # difference of two CDF values that both reach the saturation limit 1: Phi(u) - Phi(u') cancels there
+        if opname == "sub" and a.sym is not None and b.sym is not None and a.sym[0] == "call" and b.sym[0] == "call" \
+                and SATURATING.get(a.sym[1], "").startswith("cdf") and SATURATING.get(b.sym[1], "").startswith("cdf") and a.rng is not None and b.rng is not None:
+            if a.rng.hi >= 1 - 1e-9 and b.rng.hi >= 1 - 1e-9:
+                f = I.cur_func()
+                sites.append(dict(module=f.partition("::")[0], function=f.partition("::")[2], line=getattr(node, "lineno", 0), construct=norm_text(node, 100),
+                                  what=f"difference of two CDF values whose ranges ({a.rng}, {b.rng}) both reach the saturation limit 1: the Gaussian mass of a band is computed by cancellation "
+                                       "(evaluate it in the lower tail, at -|x|, instead)", stack=list(I.cur_stack())))
         for c, t, c_left in ((a, b, True), (b, a, False)):
             if c.const is None or isinstance(c.const, bool) or c.const == 0:
                 continue
@@ -57,6 +65,76 @@ def _cancel_hook(sites: List[Dict[str, Any]]):
                                   stack=list(I.cur_stack())))
 
     return arith
+
+
+def _subst_param(sym, name: str, repl):
+    if sym is None or not isinstance(sym, tuple) or not sym:
+        return sym
+    if sym == ("param", name):
+        return repl
+    if sym[0] in ("const", "param", "in", "rd", "elem", "idx", "lenterm", "len", "opq"):
+        return sym
+    return (sym[0],) + tuple(_subst_param(a, name, repl) if isinstance(a, tuple) else a for a in sym[1:])
+
+
+def _parity_rule(prog, roles, mi, rep: Report, name: str, parity: int) -> None:
+    """f(x) for x > 0 must equal parity * f(-x) evaluated on the x < 0 path, on each side of the function's guard."""
+    from ..poly import p_neg, show, to_poly
+
+    f = mi.funcs[name]
+    word = "odd" if parity < 0 else "even"
+    # discovery: the guard comparisons of the function against constants
+    guards = []
+
+    def mk(xbox, seeds):
+        wx = World(prog, roles)
+        wx.I.opaque_funcs = {mi.funcs[n].fq for n in ("phi_major", "phi_minor") if n in mi.funcs}
+        wx.I.number_locals = False
+
+        def compare(I, node, op, a, b):
+            if I.cur_func().partition("::")[0] == mi.name and I.cur_func().partition("::")[2] not in ("phi_major", "phi_minor", "phi_major_inverse") and b.const is not None and a.sym is not None and a.sym[0] != "param" and a.const is None:
+                guards.append((a.sym, b.sym))
+
+        wx.I.hooks["compare"] = compare
+        for a_, b_, r_ in seeds:
+            wx.state.rel_set(a_, b_, r_)
+        xv = Num(kinds=FLOAT, rng=Interval(*xbox), deg=F0, sym=("param", "x"))
+        tv = _num("t", *T_BOX)
+        r = wx.I.call_function(FuncV(fi=f, node=f.node, module=f.module), [xv, tv], {}, f.node, wx.state)
+        return wx, r
+
+    pos_box, neg_box = (0.0, 40.0, True, False), (-40.0, 0.0, False, True)
+    mk(pos_box, [])
+    gset = []
+    for g in guards:
+        if g not in gset:
+            gset.append(g)
+    import itertools as _it
+
+    combos = list(_it.product((True, False), repeat=len(gset))) if gset else [()]
+    for combo in combos[:8]:
+        label = ", ".join(f"guard {i + 1} {'true' if t_ else 'false'}" for i, t_ in enumerate(combo)) or "no guard"
+        seeds = [(a_, b_, frozenset({"LT"}) if t_ else frozenset({"GT", "EQ"})) for (a_, b_), t_ in zip(gset, combo)]
+        _, rp = mk(pos_box, seeds)
+        _, rn = mk(neg_box, seeds)
+        c = f"{name} is {word} in x ({label})"
+        sp = rp.sym if isinstance(rp, Num) else None
+        sn = rn.sym if isinstance(rn, Num) else None
+        if isinstance(rp, Num) and rp.const is not None and isinstance(rn, Num) and rn.const is not None:
+            ok = rp.const == parity * rn.const
+            (rep.holds if ok else rep.violated)("R17.5", module=mi.name, function=name, construct=c, line=f.node.lineno, message="" if ok else f"{name}(x>0) = {rp.const}, {name}(x<0) = {rn.const}")
+            continue
+        if sp is None or sn is None:
+            rep.undecided("R17.5", module=mi.name, function=name, construct=c, message="a branch has no symbolic term (nested data-dependent branch)")
+            continue
+        mirrored = to_poly(_subst_param(sn, "x", ("neg", ("param", "x"))))
+        if parity < 0 and mirrored is not None:
+            mirrored = p_neg(mirrored)
+        got = to_poly(sp)
+        ok = got is not None and mirrored is not None and got == mirrored
+        (rep.holds if ok else rep.violated)("R17.5", module=mi.name, function=name, construct=c, line=f.node.lineno,
+                                             message="" if ok else f"{name}(x) for x > 0 is {show(got, 200)} but {'-' if parity < 0 else ''}{name}(-x) computed on the x < 0 path is {show(mirrored, 200)}: "
+                                                                   f"the function is not {word} in x (a sign flip lost for one sign of x: a draw then moves the stronger team the wrong way)")
 
 
 def run(prog: Program, rep: Report, tier: str = "quick") -> None:
@@ -128,10 +206,15 @@ def run(prog: Program, rep: Report, tier: str = "quick") -> None:
         # phi_major in the CDF role: its value is numbered as an uninterpreted monotone CDF (cdf(0) = 1/2), so that
         # guards on it refine its argument whatever its implementation (single formula or sign-split)
         wx.I.opaque_funcs = {mi.funcs["phi_major"].fq}
+        band_sites: List[Dict[str, Any]] = []
+        wx.I.hooks["arith"] = _cancel_hook(band_sites)
         xv, tv = _num("x", *X_BOX), _num("t", *T_BOX)
         r = wx.I.call_function(FuncV(fi=f, node=f.node, module=f.module), [xv, tv], {}, f.node, wx.state)
         for u in wx.I.undecided:
             rep.undecided("R17.4", module=mi.name, function=name, construct=u[:100], message=u)
+        for s_ in band_sites:
+            rep.violated("R17.1", module=s_["module"], function=s_["function"], construct=s_["construct"], line=s_["line"],
+                         message=f"cancelling form inside {name}: {s_['what']}; relative accuracy of the result is lost for large |x| on that side")
         if wx.I.raises or wx.state.bottom:
             rep.violated("R17.4", module=mi.name, function=name, construct=f"{name} returns normally", line=f.node.lineno, message=f"{name} may raise {[e.data['exc'] for e in wx.I.raises]} on the sweep box")
             continue
@@ -160,6 +243,9 @@ def run(prog: Program, rep: Report, tier: str = "quick") -> None:
         if name == "wt":
             rep.assumed("R17.3", module=mi.name, function="wt", construct="wt guards at epsilon, vt at 1e-5", line=f.node.lineno,
                         message="confirmed exception: wt squares vt's asymptote between the two thresholds; the statement's tolerances for vt (2t) and wt (20t + 1e-13/t) were stated for exactly this behaviour")
+    # ---------------------------------------------------------------- R17.5 vt is odd and wt is even in x, branch by branch
+    for name, parity in (("vt", -1), ("wt", 1)):
+        _parity_rule(prog, roles, mi, rep, name, parity)
     # R17.2
     if "v" in results:
         r = results["v"]
@@ -170,3 +256,4 @@ def run(prog: Program, rep: Report, tier: str = "quick") -> None:
     rep.floor("R17.2", 1)
     rep.floor("R17.3", 4)
     rep.floor("R17.4", 4)
+    rep.floor("R17.5", 2)
